@@ -1269,7 +1269,7 @@ def check_mutations(tier, rng):
 
 
 # ====================================================================================================== check 3: white space
-WS_BASES = BASES + ['=1 2', '=1+', '=1+2)', '=(1+2', '=SUM(1,2,)', '=IF(A1>0,1,2,4)', '=1%%', '=A1 B1', '=SUM(1,2)4', '="a" "b"',
+WS_BASES = BASES + ['=1 2', '=1+', '=1+2)', '=(1+2', '=SUM(1,2,)', '=IF(A1>0,1,2,4)', '=1%2', '=A1 B1', '=SUM(1,2)4', '="a" "b"',
                     '="a b"&" c "', '=IF(C1="ax"," y ","n")', '=1<>2', '=A1<=B1', '=-(A1+2)', '=SUM(\'T 2\'!A1:A2)']
 WS_KINDS = [' ', '\t', '\n', '  ', ' \n', '\n\n\t ']
 
@@ -1405,7 +1405,7 @@ def check_separators(tier, rng):
 
 # ====================================================================================================== check 5: contexts
 DEEP_LIMIT = 5.0    # nest 3 / brackets 8 need ~0.3 s, nest 5 ~30 s, brackets 16 ~70 s: the sizes used stay clear of the limit
-MALFORMED = ['=1 2', '=1+', '=1+2)', '=(1+2', '=SUM(1,2) 4', '=A1 B1', '=IF(A1>0,1,2,4)', '=1,', '=1%%', '=SUM(1,2)+', '="a" "b"',
+MALFORMED = ['=1 2', '=1+', '=1+2)', '=(1+2', '=SUM(1,2) 4', '=A1 B1', '=IF(A1>0,1,2,4)', '=1,', '=1%2', '=SUM(1,2)+', '="a" "b"',
              '=DAY(D1,2)', '=TODAY(1)', '=1**2']
 
 
